@@ -693,6 +693,16 @@ class Walker:
                 return True
             if cg == nt:
                 return False
+        # ``E is None`` / ``E is not None`` where this path already knows isinstance(E, <class>):
+        # an instance of a class is not None
+        if isinstance(t, ast.Compare) and len(t.ops) == 1 and isinstance(t.ops[0], (ast.Is, ast.IsNot)) and isinstance(t.comparators[0], ast.Constant) \
+                and t.comparators[0].value is None:
+            subj = canon(t.left)
+            for g0, pol in st.guards:
+                g = g0 if pol else negate(g0)
+                if isinstance(g, ast.Call) and isinstance(g.func, ast.Name) and g.func.id == 'isinstance' and len(g.args) == 2 and canon(g.args[0]) == subj \
+                        and 'NoneType' not in canon(g.args[1]) and 'type(None)' not in canon(g.args[1]):
+                    return isinstance(t.ops[0], ast.IsNot)
         return None
 
     def s_With(self, s, st, d):
